@@ -62,7 +62,7 @@ def structure_posts(ctx, gm, g0, g1, S_eff, E_eff, with_sat=True):
 def structure_task(variant):
     def run(ctx):
         fn, seg, sha = engine.find_function(F, "miter")
-        info = {"function": f"{F}::miter", "sha256": sha, "lines": [fn.lineno, fn.end_lineno], "variants": [variant]}
+        info = {"function": f"{F}::miter", "sha256": sha, "lines": engine.abs_lines(fn), "variants": [variant]}
         T = ctx.tval
         H = {}
 
